@@ -78,6 +78,7 @@ var recipes = []recipe{
 	}, 3},
 	{"settings-mid-history", func(r *hx.Rng, s uint64, o hx.Counter, a bool) []Case { return runSettings(drawSettings(r, s), o) }, 3},
 	{"export-import", func(r *hx.Rng, s uint64, o hx.Counter, a bool) []Case { return runExportImport(s, o) }, 1},
+	{"actor-perturbation", func(r *hx.Rng, s uint64, o hx.Counter, a bool) []Case { return runPerturb(drawPerturb(r, s), o) }, 4},
 	{"random", recipeRandom, 6},
 }
 
